@@ -352,6 +352,10 @@ class Run:
                 new.append(v)
         stale = [i for (p, i) in known if p == self.prop and i not in self.viol]
         replay_paths = []
+        if os.path.isdir(REPLAY_DIR):
+            for fn in os.listdir(REPLAY_DIR):
+                if fn.startswith(self.prop + '-') and fn.endswith('.json'):
+                    os.unlink(os.path.join(REPLAY_DIR, fn))
         if new:
             os.makedirs(REPLAY_DIR, exist_ok=True)
         for v in new:
